@@ -4,6 +4,7 @@ package main
 
 import (
 	"fmt"
+	"math/big"
 	"slices"
 	"strings"
 
@@ -136,9 +137,11 @@ func c16BGV(c *Ctx, ns []int) {
 				if !c.Thorough() && (lin+ni+si)%2 == 1 {
 					continue
 				}
-				sigma := []float64{3.2, 25.6}[c.rng.Intn(2)]
-				c14Guard(c, "C16-harness-panic", "c16BGVSharing", func() { c16BGVSharing(c, set, n, lin, sigma) })
 				lout := c.rng.Intn(set.maxQ() + 1)
+				// exactness modulo t needs t·(n·6σ' + ct noise) well below Q/2 at the lowest level involved
+				qmin, _ := new(big.Float).SetInt(set.params.RingQ().AtLevel(0).ModulusAtLevel[min(lin, lout)]).Float64()
+				sigma := c16PickSigma(c, qmin/(float64(set.t)*float64(n)*256))
+				c14Guard(c, "C16-harness-panic", "c16BGVSharing", func() { c16BGVSharing(c, set, n, lin, sigma) })
 				c14Guard(c, "C16-harness-panic", "c16BGVRefresh", func() { c16BGVRefresh(c, set, n, lin, lout, sigma, nil, c.rng.Intn(3)) })
 				fn := funcs[c.rng.Intn(len(funcs))]
 				c14Guard(c, "C16-harness-panic", "c16BGVRefresh", func() { c16BGVRefresh(c, set, n, lin, set.maxQ(), sigma, &fn, c.rng.Intn(3)) })
@@ -258,7 +261,7 @@ func c16BGVSharing(c *Ctx, set c16BGVSet, n, lvl int, sigma float64) {
 		e := c16SampleSigned(params, twins[i].e2sNoise, lvl, false)
 		m := ringT.NewPoly()
 		twins[i].mask.Read(m)
-		c16Record(fmt.Sprintf("bgv_e2s copy=%t sigma=%g", copiedAll[i], sigma),
+		c16Record(fmt.Sprintf("bgv_e2s_share ctor=%s sigma=%g", map[bool]string{false: "new", true: "copy"}[copiedAll[i]], sigma),
 			c16Residual(params, lvl, true, pub[i].Value, []c16Term{{ct.Value[1], keys.sk[i], 1}}, nil, []ring.Poly{c16BGVEmbed(set, lvl, c16T(sec[i].Value))}))
 		if !slices.Equal(c16T(m), c16T(sec[i].Value)) {
 			c.Probe("twin_replay", fmt.Sprintf("bgv mask set=%s party=%d", set.name, i), "C16-twin-replay", "twin_mask_differs_from_the_protocol's_secret_share")
@@ -316,6 +319,11 @@ func c16BGVSharing(c *Ctx, set c16BGVSet, n, lvl int, sigma float64) {
 		if !c.Thorough() && lout != set.maxQ() && lout != lvl {
 			continue
 		}
+		// the requested flooding must leave room for exactness modulo t at the output level (same rule as c16PickSigma)
+		if qf, _ := new(big.Float).SetInt(set.params.RingQ().AtLevel(0).ModulusAtLevel[lout]).Float64(); sigma > qf/(float64(set.t)*float64(n)*256) {
+			c.Count("bgv_s2e_level_skipped(flooding exceeds the noise budget at this level)")
+			continue
+		}
 		_, crs := c14CRS(c)
 		crp := s2e[0].SampleCRP(lout, crs)
 		a := Mat(c16QRows(params, crp.Value, lout, true))
@@ -328,7 +336,7 @@ func c16BGVSharing(c *Ctx, set c16BGVSet, n, lvl int, sigma float64) {
 				panic(err)
 			}
 			e := c16SampleSigned(params, twins[i].s2eNoise, lout, false)
-			c16Record(fmt.Sprintf("bgv_s2e copy=%t sigma=%g", copiedAll[i], sigma),
+			c16Record(fmt.Sprintf("bgv_s2e_share ctor=%s sigma=%g", map[bool]string{false: "new", true: "copy"}[copiedAll[i]], sigma),
 				c16Residual(params, lout, true, sh[i].Value, []c16Term{{crp.Value, keys.sk[i], -1}}, []ring.Poly{c16BGVEmbed(set, lout, c16T(final[i].Value))}, nil))
 			shRows[i] = Mat(c16QRows(params, sh[i].Value, lout, true))
 			c.Emit(fmt.Sprintf("bgv_s2e %s %s %s %s %s", hdrO, a, IVec(keys.s[i]), IVec(e), Vec(c16T(final[i].Value))), shRows[i])
@@ -406,20 +414,38 @@ func c16BGVRefresh(c *Ctx, set c16BGVSet, n, lin, lout int, sigma float64, fn *c
 		name = fn.name
 	}
 
+	// every way of constructing the protocol: NewMaskedTransformProtocol, NewRefreshProtocol (refresh only), and the
+	// ShallowCopy of either
 	protos := make([]mpbgv.MaskedTransformProtocol, n)
 	twins := make([]c16BGVTwin, n)
 	copiedAll := make([]bool, n)
+	ctor := make([]string, n)
+	var rfp0 *mpbgv.RefreshProtocol
 	for i := range protos {
 		mark := RandMark()
 		copied := i > 0 && c.rng.Intn(2) == 0
 		copiedAll[i] = copied
-		if !copied {
+		switch {
+		case copied && rfp0 != nil:
+			cp := rfp0.ShallowCopy()
+			protos[i], ctor[i] = cp.MaskedTransformProtocol, "NewRefreshProtocol.ShallowCopy"
+		case copied:
+			protos[i], ctor[i] = protos[0].ShallowCopy(), "NewMaskedTransformProtocol.ShallowCopy"
+		case fn == nil && (i > 0 || c.rng.Intn(2) == 0):
+			r, err := mpbgv.NewRefreshProtocol(set.bp, flood)
+			if err != nil {
+				panic(err)
+			}
+			if i == 0 {
+				rfp0 = &r
+			}
+			protos[i], ctor[i] = r.MaskedTransformProtocol, "NewRefreshProtocol"
+		default:
 			var err error
 			if protos[i], err = mpbgv.NewMaskedTransformProtocol(set.bp, set.bp, flood); err != nil {
 				panic(err)
 			}
-		} else {
-			protos[i] = protos[0].ShallowCopy()
+			ctor[i] = "NewMaskedTransformProtocol"
 		}
 		twins[i] = c16BGVTwins(set, mark, copied, noise)
 	}
@@ -448,9 +474,9 @@ func c16BGVRefresh(c *Ctx, set c16BGVSet, n, lin, lout int, sigma float64, fn *c
 		if fn != nil {
 			mask2 = fn.apply(set, mask, ct.Scale)
 		}
-		c16Record(fmt.Sprintf("bgv_refresh copy=%t sigma=%g", copiedAll[i], sigma),
+		c16Record(fmt.Sprintf("bgv_refresh_e2s_share ctor=%s sigma=%g", ctor[i], sigma),
 			c16Residual(params, lin, true, shares[i].EncToShareShare.Value, []c16Term{{ct.Value[1], keys.sk[i], 1}}, nil, []ring.Poly{c16BGVEmbed(set, lin, mask)}))
-		c16Record(fmt.Sprintf("bgv_refresh copy=%t sigma=%g", copiedAll[i], sigma),
+		c16Record(fmt.Sprintf("bgv_refresh_s2e_share ctor=%s sigma=%g", ctor[i], sigma),
 			c16Residual(params, lout, true, shares[i].ShareToEncShare.Value, []c16Term{{crp.Value, keys.sk[i], -1}}, []ring.Poly{c16BGVEmbed(set, lout, mask2)}, nil))
 		rowsE[i] = Mat(c16QRows(params, shares[i].EncToShareShare.Value, lin, true))
 		rowsS[i] = Mat(c16QRows(params, shares[i].ShareToEncShare.Value, lout, true))
